@@ -213,14 +213,19 @@ def prefix_events(gid, toks_list, flen):
 # --------------------------------------------------------------------------------------
 
 def histories(chk, tier):
+    """TLC-generated write histories: a stride through the exhaustive set of the one-column schema
+    (all null patterns x batch splits x row-group cuts) plus random walks over the schema catalogue"""
+    def stride(xs, n):
+        xs = sorted(xs, key=lambda h: json.dumps(h, sort_keys=True))
+        return xs[::max(1, len(xs) // n)][:n]
     hs = []
     if tier == "quick":
-        hs += wcommon.gen_histories(chk, [1], [2, 3], 2, 2, limit=None)[::9]
-        hs += wcommon.gen_histories(chk, [2, 3, 4, 5, 6, 7, 8], [0, 2, 9], 3, 2, nullmode="runs", simulate=14, depth=40, workers=4)
+        hs += stride(wcommon.gen_histories(chk, [1], [2, 3], 2, 2, workers=4), 10)
+        hs += wcommon.gen_histories(chk, [2, 3, 4, 5, 6, 7, 8], [0, 2, 9], 3, 2, nullmode="runs", simulate=24, depth=40, workers=4)
     else:
-        hs += wcommon.gen_histories(chk, [1], [1, 2, 3], 2, 2)[::5]
+        hs += stride(wcommon.gen_histories(chk, [1], [1, 2, 3], 2, 2, workers=6), 16)
         hs += wcommon.gen_histories(chk, [2, 3, 4, 5, 6, 7, 8], [0, 1, 2, 9, 17], 3, 3, nullmode="runs", anyorder=True,
-                                    simulate=60, depth=60, workers=6)
+                                    simulate=50, depth=60, workers=6)
     seen, out = set(), []
     for h in hs:
         k = json.dumps(h, sort_keys=True)
@@ -304,13 +309,13 @@ class FullTmpfs:
             r = subprocess.run(["mount", "-t", "tmpfs", "-o", "size=64k,nr_inodes=65536", "tmpfs", self.dir],
                                stdout=subprocess.PIPE, stderr=subprocess.STDOUT, timeout=10)
             if r.returncode == 0:
-                with open(os.path.join(self.dir, "filler"), "wb") as fh:
-                    try:
-                        while True:
-                            fh.write(b"\0" * 4096)
-                            fh.flush()
-                    except OSError:
+                fd = os.open(os.path.join(self.dir, "filler"), os.O_WRONLY | os.O_CREAT, 0o600)
+                try:
+                    while os.write(fd, b"\0" * 4096) > 0:
                         pass
+                except OSError:
+                    pass
+                os.close(fd)
                 self.ok = True
         except Exception:
             self.ok = False
@@ -423,7 +428,7 @@ def _run(chk, tier, replay, binary, fdir, extra_paths):
         for hi, ops in enumerate(hs):
             for cfg in sorted(tset | sset):
                 # the first config of each part takes every history, the other configs a share of them
-                want_sink = cfg in sset and (cfg == sorted(sset)[0] or hi % (3 if tier == "quick" else 2) == 0)
+                want_sink = cfg in sset and (cfg == sorted(sset)[0] or hi % (3 if tier == "quick" else 5) == 0)
                 want_trunc = cfg in tset and (cfg == sorted(tset)[0] or tier != "quick" or hi % 2 == 0)
                 if want_sink or want_trunc:
                     groups.append((ops, cfg[0], cfg[1], want_trunc, want_sink))
@@ -493,12 +498,12 @@ def _run(chk, tier, replay, binary, fdir, extra_paths):
         fault_by.setdefault(cid, []).append("leak")
 
     # ---- phase 3: traces
-    execs, meta = [], {}
+    traces, meta = Traces(), {}
     code_hist, nruns, nfail_points = {}, 0, 0
     kinds = {}
     for gi, g in enumerate(groups):
         if gi not in refs:
-            execs.append([{"id": "g%d" % gi, "run": "ref", "e": "Fault", "kind": "reference-run-lost:" + ",".join(fault_by.get("g%dr0" % gi, ["?"]))}])
+            traces.add([{"id": "g%d" % gi, "run": "ref", "e": "Fault", "kind": "reference-run-lost:" + ",".join(fault_by.get("g%dr0" % gi, ["?"]))}])
             continue
         ops, codec, page, want_trunc, want_sink = g
         gid = "g%d" % gi
@@ -528,15 +533,16 @@ def _run(chk, tier, replay, binary, fdir, extra_paths):
                 nruns += 1
                 if rc.arm != "n" or rc.model_arm:
                     nfail_points += 1
-                kinds[rc.kind + ":" + (rc.path and "full-device" or rc.buf if rc.kind == "c" else "file")] = kinds.get(rc.kind + ":" + (rc.path and "full-device" or rc.buf if rc.kind == "c" else "file"), 0) + 1
+                kk = "cookie:" + rc.buf if rc.kind == "c" else ("path:full-device" if rc.path else "path:file")
+                kinds[kk] = kinds.get(kk, 0) + 1
                 chk.count(("run", gid, fb.hex(), rc.label()), rc.arm != "n" or rc.end == "A" or bool(rc.model_arm))
             for s in fault_by.get(rid, []):
                 evs.append({"id": gid, "run": rid + " " + rc.label(), "e": "Fault", "kind": s})
-        execs.append(evs)
+        traces.add(evs)
 
     t0 = tick(t0, "events")
-    verdicts, stats, ress = validate(execs)
-    t0 = tick(t0, "trace validation (%d events)" % sum(len(e) for e in execs))
+    verdicts, stats, ress = traces.validate()
+    t0 = tick(t0, "trace validation (%d events)" % traces.events)
     for r in ress:
         chk.add_tlc(r)
     chk.cov["traces_validated_against_impl"] += stats["runs"]
@@ -553,54 +559,70 @@ def _run(chk, tier, replay, binary, fdir, extra_paths):
     infra = [v for v in verdicts if any(w in ("prefix:cuts-missing", "prefix:no-reference-file", "prefix:opened-list-inconsistent", "unknown-event") for w in v["why"])]
     if infra:
         raise common.InfraError("C18 machinery: %s" % json.dumps(infra[:3])[:1500])
-    for v in verdicts:
+    def prio(v):            # representative case per signature: full device first, then path writers
+        lab = v.get("run", "")
+        return (0 if "devfull" in lab else 1 if " p/" in lab else 2, v.get("id", ""), v.get("l", 0))
+    alarms = {}
+    for v in sorted(verdicts, key=prio):
         ops, codec, page = meta.get(v["id"], (None, None, None))
         for w in sorted(v["why"]):
+            alarms[w] = alarms.get(w, 0) + 1
             chk.violation(signature_of(w), "history %s (codec=%s page=%s) run [%s]: event %s rejected by SinkTrace: %s %s" % (
                 v["id"], codec, page, v.get("run", ""), v["e"], sorted(v["why"]), v.get("detail", "")[:700]),
                 {"id": v["id"], "ops": ops, "codec": codec, "page": page, "run": v.get("run", ""), "event": v["e"],
                  "why": sorted(v["why"]), "detail": v.get("detail", "")})
+    if alarms:
+        chk.part("alarms", **alarms)
     chk.cov["rule"] = ("truncation: one case per written file (history x codec x page size), every cut 0..len-1 x {fread, mmap, buffer}; "
                        "sink: one case per (history, config, sink kind, stdio buffer, failure point, sticky, ending); failure points = every stream "
                        "operation and every %d-th byte offset plus the offsets around header / footer length / trailing magic; "
                        "distinct = distinct (file bytes, run label); non-trivial = a failure point is armed or the run ends in abort; files > 100 bytes" % step)
 
 
-def validate(execs):
-    """common.validate_traces with the stats fields of SinkTrace"""
-    from concurrent.futures import ThreadPoolExecutor
-    import shutil
-    import tempfile
-    np_ = nproc()
-    # balance by size: big groups first, round-robin
-    order = sorted(range(len(execs)), key=lambda i: -len(execs[i]))
-    chunks = [[] for _ in range(max(1, min(np_, len(execs))))]
-    for n, i in enumerate(order):
-        chunks[n % len(chunks)].append(execs[i])
-    tdir = tempfile.mkdtemp(prefix="trace-", dir=common.scratch_root())
-    keys = ["execs", "runs", "events", "failed", "sinkops", "drift", "okcloses", "spurious", "parsedcloses", "undecidedcloses", "aborts", "cuts", "opened", "undecided"]
+class Traces:
+    """Groups are streamed into one ndjson file per TLC process (least-filled file first), then
+    validated with the deterministic trace specification SinkTrace.tla (one JSON report per process)."""
+    KEYS = ["execs", "runs", "events", "failed", "sinkops", "drift", "okcloses", "spurious", "parsedcloses", "undecidedcloses",
+            "aborts", "cuts", "opened", "undecided"]
 
-    def work(args):
-        i, exs = args
-        path = os.path.join(tdir, "t%d.ndjson" % i)
-        with open(path, "w") as fh:
-            for ex_ in exs:
-                fh.write(json.dumps({"e": "Reset", "id": ex_[0].get("id", "")}) + "\n")
-                for ev in ex_:
-                    fh.write(json.dumps(ev) + "\n")
-        return common.run_tlc("SinkTrace", workers=1, env={"TRACE": path}, timeout=2400, heap="6g")
+    def __init__(self):
+        import tempfile
+        self.tdir = tempfile.mkdtemp(prefix="trace-", dir=common.scratch_root())
+        self.n = nproc()
+        self.files = [open(os.path.join(self.tdir, "t%d.ndjson" % i), "w") for i in range(self.n)]
+        self.load = [0] * self.n
+        self.events = 0
 
-    verdicts, stats, ress = [], {k: 0 for k in keys}, []
-    try:
-        with ThreadPoolExecutor(max_workers=np_) as ex:
-            for res in ex.map(work, list(enumerate(chunks))):
-                ress.append(res)
-                if res.error or res.rc != 0 or not res.cases:
-                    raise common.InfraError("trace validation with SinkTrace failed (rc=%s %s)\n%s" % (res.rc, res.error, res.out[-3000:]))
-                rep = res.cases[-1]
-                verdicts.extend(rep["verdicts"])
-                for k in keys:
-                    stats[k] += rep["stats"].get(k, 0)
-    finally:
-        shutil.rmtree(tdir, ignore_errors=True)
-    return verdicts, stats, ress
+    def add(self, evs):
+        i = self.load.index(min(self.load))
+        fh = self.files[i]
+        fh.write(json.dumps({"e": "Reset", "id": evs[0].get("id", "")}) + "\n")
+        for ev in evs:
+            fh.write(json.dumps(ev) + "\n")
+        self.load[i] += len(evs) + sum(len(e.get("bytes", ())) + 4 * len(e.get("v", ())) for e in evs) // 200
+        self.events += len(evs)
+
+    def validate(self):
+        from concurrent.futures import ThreadPoolExecutor
+        import shutil
+        for fh in self.files:
+            fh.close()
+        used = [i for i in range(self.n) if self.load[i] > 0]
+
+        def work(i):
+            return common.run_tlc("SinkTrace", workers=1, env={"TRACE": os.path.join(self.tdir, "t%d.ndjson" % i)}, timeout=3000, heap="6g")
+
+        verdicts, stats, ress = [], {k: 0 for k in self.KEYS}, []
+        try:
+            with ThreadPoolExecutor(max_workers=max(1, len(used))) as ex:
+                for res in ex.map(work, used):
+                    ress.append(res)
+                    if res.error or res.rc != 0 or not res.cases:
+                        raise common.InfraError("trace validation with SinkTrace failed (rc=%s %s)\n%s" % (res.rc, res.error, res.out[-3000:]))
+                    rep = res.cases[-1]
+                    verdicts.extend(rep["verdicts"])
+                    for k in self.KEYS:
+                        stats[k] += rep["stats"].get(k, 0)
+        finally:
+            shutil.rmtree(self.tdir, ignore_errors=True)
+        return verdicts, stats, ress
